@@ -167,7 +167,7 @@ Proof.
   - injection E as E1 E2 E3.
     assert (Et : oty o1 = oty o2) by (eapply (index_of_inj Z.eqb Zeqb_iff); eauto).
     assert (Es : (oty o1, ost o1) = (oty o2, ost o2)).
-    { eapply (index_of_inj pair_eqb pair_eqb_iff); [apply state_keys_In; auto | apply state_keys_In; auto | exact E2]. }
+    { apply (index_of_inj pair_eqb pair_eqb_iff _ _ (state_keys ts) (n_types ts)); [apply state_keys_In; auto | apply state_keys_In; auto | exact E2]. }
     assert (Ec : ocol o1 = ocol o2) by (eapply (index_of_inj Z.eqb Zeqb_iff); eauto).
     injection Es; auto.
 Qed.
@@ -234,4 +234,21 @@ Proof.
     + right; right. set (i := Z.to_nat (v - Z.of_nat (length ts) - Z.of_nat (length (state_keys ts)))).
       exists (nth i cs 0). assert (Hi : (i < length cs)%nat) by (unfold i; lia). split; [apply nth_In; auto|].
       unfold color_map, n_types, n_states. rewrite (index_of_nth Z.eqb Zeqb_iff 0 cs Nc) by auto. unfold i. lia.
+Qed.
+
+(* non-vacuity: a key-door space and two of its members *)
+Lemma C15_example_holds :
+  let ts := [ty_NoneGridObject; ty_Floor; ty_Wall; ty_Door; ty_Key] in let cs := [0; 1; 3] in
+  space_ok ts cs /\ member ts cs (Door 2 3) /\ member ts cs (Key 1) /\
+  enc_obj RNoOverlap ts cs (Door 2 3) = [ty_Door; max_type ts + 3; max_type ts + max_state ts + 5].
+Proof.
+  cbv zeta. split; [|split; [|split]].
+  - unfold space_ok. repeat split.
+    + repeat constructor; vm_compute; discriminate.
+    + repeat constructor; vm_compute; discriminate.
+    + repeat constructor; vm_compute; intuition discriminate.
+    + repeat constructor; vm_compute; intuition discriminate.
+  - unfold member. vm_compute. intuition discriminate.
+  - unfold member. vm_compute. intuition discriminate.
+  - vm_compute. reflexivity.
 Qed.
